@@ -261,7 +261,17 @@ def check_key_bounds(ctx):
     C10.check_bounds(ctx, "C01.validate/bounds")
 
 
+def check_extent_len(ctx):
+    """the disk tier returns what the resident tier holds only if the writer lays a record out over exactly the extent every
+    reader (value load, recovery, retirement) computes for it: every derivation of an extent length is
+    `RecordFormat::total_size(key_len, value_len).div_ceil(FEOX_BLOCK_SIZE)` (same rule as C05.len / C10.extent-len). A writer
+    that allocates one block less truncates the value's tail silently; the head block still verifies."""
+    from rules import C05
+    C05.check_len(ctx, "C01.extent-len")
+
+
 def check(ctx):
+    check_extent_len(ctx)
     check_key_bounds(ctx)
     check_deferred_walk(ctx)
     check_gate(ctx)
